@@ -1,1 +1,117 @@
 // Kani contract harnesses for /repo/arrow-ipc/src/reader/stream.rs (child module: sees private items via super::)
+use super::*;
+#[path = "/verif/kani/support/spec.rs"]
+mod spec;
+use spec::*;
+
+fn fresh() -> StreamDecoder {
+    StreamDecoder {
+        schema: None,
+        dictionaries: HashMap::new(),
+        state: DecoderState::default(),
+        buf: MutableBuffer::new(0),
+        require_alignment: false,
+        skip_validation: UnsafeFlag::new(),
+    }
+}
+
+/// feed bytes[from..to] as one chunk; the chunk must be consumed completely and yield no batch
+fn feed(d: &mut StreamDecoder, bytes: &[u8; 8], from: usize, to: usize) {
+    let mut b = Buffer::from_slice_ref(bytes).slice_with_length(from, to - from);
+    let r = d.decode(&mut b);
+    assert!(matches!(r, Ok(None)));
+    assert!(b.is_empty());
+    std::mem::forget(r);
+}
+
+// Contract (C14): the 4/8-byte message prefix of the IPC stream format is assembled identically for every
+// way of cutting it into chunks. Prefix = continuation marker FF FF FF FF followed by a little-endian u32
+// metadata length s (all 2^32 values symbolic). For the cut points of the instance (chunk boundaries
+// inside the 8 bytes; empty chunks allowed; [8] is the one-shot case and [1,2,..,8] one byte at a time),
+// after the 8 bytes the decoder is in state Message{size = s} (s != 0) or Finished (s == 0: end-of-stream
+// marker), has consumed every byte, produced no batch and no error; finish() then succeeds iff s == 0.
+// Since every instance is compared with the same closed-form result, all chunkings agree with each other
+// and with the one-shot read. The prefix logic is reached without any flatbuffer message (the last chunk
+// ends exactly after the prefix). Cut points are concrete per instance: with symbolic cut points CBMC
+// cannot exclude that bytes are left over and has to encode the flatbuffer verifier (measured: timeout 400 s).
+macro_rules! stream_prefix_continuation {
+    ($name:ident, $cuts:expr) => {
+        #[kani::proof]
+        #[kani::unwind(10)]
+        #[kani::stub(alloc::fmt::format, stub_format)]
+        fn $name() {
+            let s: [u8; 4] = kani::any();
+            let bytes = [0xFF, 0xFF, 0xFF, 0xFF, s[0], s[1], s[2], s[3]];
+            let cuts = $cuts;
+            let mut d = fresh();
+            let mut from = 0;
+            let mut c = 0;
+            while c < cuts.len() {
+                feed(&mut d, &bytes, from, cuts[c]);
+                from = cuts[c];
+                c += 1;
+            }
+            assert!(from == 8);
+            let size = u32::from_le_bytes(s);
+            match &d.state {
+                DecoderState::Message { size: got } => assert!(size != 0 && *got == size),
+                DecoderState::Finished => assert!(size == 0),
+                _ => assert!(false),
+            }
+            let f = d.finish();
+            assert!(f.is_ok() == (size == 0));
+            kani::cover!(size == 0x0102_0304);
+            kani::cover!(size == 0);
+            kani::cover!(size == u32::MAX);          // a second FF FF FF FF is a length, not another marker
+            std::mem::forget(f);
+            std::mem::forget(d);
+        }
+    };
+}
+// @unit name=stream_prefix_cont_oneshot props=C14 kind=bounded bound=chunking=[8]_all_lengths fns=StreamDecoder::decode,StreamDecoder::finish timeout=900 mem=4 tier=thorough note=not_confirmed_at_checkpoint
+stream_prefix_continuation!(stream_prefix_cont_oneshot, [8usize]);
+// @unit name=stream_prefix_cont_bytewise props=C14 kind=bounded bound=chunking=one_byte_at_a_time_all_lengths fns=StreamDecoder::decode,StreamDecoder::finish timeout=900 mem=4 tier=thorough note=not_confirmed_at_checkpoint
+stream_prefix_continuation!(stream_prefix_cont_bytewise, [1usize, 2, 3, 4, 5, 6, 7, 8]);
+// @unit name=stream_prefix_cont_3_5 props=C14 kind=bounded bound=chunking=[3,5,8]_all_lengths fns=StreamDecoder::decode,StreamDecoder::finish timeout=900 mem=4 tier=thorough note=not_confirmed_at_checkpoint
+stream_prefix_continuation!(stream_prefix_cont_3_5, [3usize, 5, 8]);
+// @unit name=stream_prefix_cont_0_4_4 props=C14 kind=bounded bound=chunking=[0,4,4,8]_with_empty_chunks_all_lengths fns=StreamDecoder::decode,StreamDecoder::finish timeout=900 mem=4 tier=thorough note=not_confirmed_at_checkpoint
+stream_prefix_continuation!(stream_prefix_cont_0_4_4, [0usize, 4, 4, 8]);
+
+// Contract (C14, C18): legacy prefix (pre-0.15 streams: no continuation marker): 4 bytes s != FF FF FF FF
+// are the little-endian metadata length; same statement for the cut points of the instance. Additionally
+// a stream cut inside the prefix (CUT bytes delivered, 0 < CUT < 4) is not accepted by finish()
+// (truncated stream => error), while an empty stream is.
+macro_rules! stream_prefix_legacy {
+    ($name:ident, $cut:expr) => {
+        #[kani::proof]
+        #[kani::unwind(10)]
+        #[kani::stub(alloc::fmt::format, stub_format)]
+        fn $name() {
+            const CUT: usize = $cut;
+            let s: [u8; 4] = kani::any();
+            kani::assume(s != [0xFF, 0xFF, 0xFF, 0xFF]);
+            let bytes = [s[0], s[1], s[2], s[3], 0, 0, 0, 0];
+            let mut d = fresh();
+            feed(&mut d, &bytes, 0, CUT);
+            let f = d.finish();
+            assert!(f.is_ok() == (CUT == 0));            // truncated inside the prefix => error
+            std::mem::forget(f);
+            feed(&mut d, &bytes, CUT, 4);
+            let size = u32::from_le_bytes(s);
+            match &d.state {
+                DecoderState::Message { size: got } => assert!(size != 0 && *got == size),
+                DecoderState::Finished => assert!(size == 0),
+                _ => assert!(false),
+            }
+            kani::cover!(size == 0x0A0B_0C0D);
+            kani::cover!(size == 0);
+            std::mem::forget(d);
+        }
+    };
+}
+// @unit name=stream_prefix_legacy_cut0 props=C14,C18 kind=bounded bound=chunking=[0,4]_all_lengths fns=StreamDecoder::decode,StreamDecoder::finish timeout=900 mem=4 tier=thorough note=not_confirmed_at_checkpoint
+stream_prefix_legacy!(stream_prefix_legacy_cut0, 0);
+// @unit name=stream_prefix_legacy_cut1 props=C14,C18 kind=bounded bound=chunking=[1,4]_all_lengths fns=StreamDecoder::decode,StreamDecoder::finish timeout=900 mem=4 tier=thorough note=not_confirmed_at_checkpoint
+stream_prefix_legacy!(stream_prefix_legacy_cut1, 1);
+// @unit name=stream_prefix_legacy_cut3 props=C14,C18 kind=bounded bound=chunking=[3,4]_all_lengths fns=StreamDecoder::decode,StreamDecoder::finish timeout=900 mem=4 tier=thorough note=not_confirmed_at_checkpoint
+stream_prefix_legacy!(stream_prefix_legacy_cut3, 3);
